@@ -42,7 +42,26 @@ func replayOne(ctx *core.Ctx) {
 		ctx.ToolError("replay: %s", u.skip)
 		return
 	}
-	o := u.run(rc.Plan)
+	if u.unstable {
+		ctx.ToolError("replay: the fault-free output of the case is not reproducible")
+		return
+	}
+	u.long = u.Family == "long"
+	for _, p := range rc.History {
+		u.run(p)
+	}
+	var o *Outcome
+	if rc.HealthyRender {
+		ok, out, err := u.healthy()
+		o = &Outcome{Healthy: true, Err: err, Accepted: out, FirstBad: -1, Site: "n/a", History: rc.History}
+		if !ok {
+			o.Feature = "healthy-render-differs-after-failed-writes"
+			o.What = "a render into an unfailing writer no longer produces the fault-free output after renders whose writer failed"
+		}
+	} else {
+		o = u.run(rc.Plan)
+		o.History = rc.History
+	}
 	ctx.AddEvals(1)
 	ctx.AddTraces(1)
 	ctx.Distinct(u.ID + "#" + rc.Plan.String())
@@ -51,7 +70,6 @@ func replayOne(ctx *core.Ctx) {
 		u.ID, rc.Plan, o.Site, len(u.ffOut), len(u.writes), len(o.Accepted), errText(o.Err), verdict(o))
 	ctx.Sample(map[string]interface{}{"unit": u.ID, "plan": rc.Plan, "verdict": verdict(o)})
 	if o.Feature != "" {
-		ctx.Violation(core.Sig{Family: "fault-enum", Feature: o.Feature},
-			fmt.Sprintf("%s plan %s: %s; err=%q accepted %d of %d bytes", u.ID, o.Plan, o.What, errText(o.Err), len(o.Accepted), len(u.ffOut)), u.replay(o))
+		ctx.Violation(core.Sig{Family: "fault-enum", Feature: o.Feature}, describe(u, o), u.replay(o))
 	}
 }
